@@ -175,6 +175,17 @@ def load_baseline(prop: str) -> dict:
         return json.load(f)
 
 
+def matches_known(o: dict, k: dict) -> bool:
+    """A listed finding covers a failed obligation only for the specific failure it describes:
+    for bounded checks the failing sub-check labels must all be among `checks_allowed`."""
+    allowed = k.get('checks_allowed')
+    if not allowed:
+        return True
+    fails = ((o.get('model') or {}).get('failures')) or []
+    labels = {str(f.get('check') or f.get('clause') or '') for f in fails if isinstance(f, dict)}
+    return bool(labels) and labels <= set(allowed)
+
+
 def finish(prop, tier, seed, pm, funcs: list[dict], extras: list[Extra], t0, update_baseline=False) -> int:
     known = [k for k in load_known() if k.get('property') == prop]
     known_open = {k['obligation']: k for k in known if k.get('status') == 'finding'}
@@ -223,7 +234,7 @@ def finish(prop, tier, seed, pm, funcs: list[dict], extras: list[Extra], t0, upd
                 undecided.append(f'{name}: obligation of the committed baseline was not generated (vacuity guard)')
     for o in obligations:
         if o['status'] == 'failed':
-            if o['name'] in known_open:
+            if o['name'] in known_open and matches_known(o, known_open[o['name']]):
                 known_lines.append((o, known_open[o['name']]))
             else:
                 violations.append(o)
@@ -242,7 +253,7 @@ def finish(prop, tier, seed, pm, funcs: list[dict], extras: list[Extra], t0, upd
         if e.status == 'failed':
             o = {'name': e.name, 'kind': 'bounded', 'status': 'failed', 'backend': e.backend, 'seconds': e.seconds,
                  'note': e.detail, 'model': e.witness, 'function': '', 'sha': '', 'native': True}
-            if e.name in known_open:
+            if e.name in known_open and matches_known(o, known_open[e.name]):
                 known_lines.append((o, known_open[e.name]))
             else:
                 violations.append(o)
